@@ -50,6 +50,12 @@ inductive Err
   | ContractNotInInputs
   /-- `PanicReason::ContractNotFound` -/
   | ContractNotFound
+  /-- `ValidityError::TransactionCreateOutputContractCreatedDoesntMatch` -/
+  | TransactionCreateOutputContractCreatedDoesntMatch
+  /-- `ValidityError::TransactionCreateOutputContractCreatedMultiple` -/
+  | TransactionCreateOutputContractCreatedMultiple
+  /-- `ValidityError::TransactionOutputDoesntContainContractCreated` -/
+  | TransactionOutputDoesntContainContractCreated
   deriving DecidableEq, Repr
 
 def Err.name : Err → String
@@ -62,6 +68,9 @@ def Err.name : Err → String
   | .ContractIdAlreadyDeployed => "ContractIdAlreadyDeployed"
   | .ContractNotInInputs => "ContractNotInInputs"
   | .ContractNotFound => "ContractNotFound"
+  | .TransactionCreateOutputContractCreatedDoesntMatch => "TransactionCreateOutputContractCreatedDoesntMatch"
+  | .TransactionCreateOutputContractCreatedMultiple => "TransactionCreateOutputContractCreatedMultiple"
+  | .TransactionOutputDoesntContainContractCreated => "TransactionOutputDoesntContainContractCreated"
 
 /-! ## fuel-crypto/src/hasher.rs -/
 
@@ -255,6 +264,57 @@ def Create.precompute (H : Bytes → Bytes) (c : Create) : Create × Except Err 
   match CreateMetadata.compute H c0 with
   | .error e => (c0, .error e)
   | .ok m => ({ c0 with metadata := some m }, .ok ())
+
+/-! ### the `ContractCreated` clause of `check_unique_rules` (create.rs) -/
+
+/-- an output of a `Create` as far as this clause is concerned: `ContractCreated { contract_id, state_root }`, or
+any output the other arms let pass (`Coin`, `Change` of the base asset) -/
+inductive Output
+  | contractCreated (contractId stateRoot : Bytes)
+  | other
+  deriving DecidableEq, Repr
+
+/-- the guard `contract_id != &contract_id_calculated || state_root != &state_root_calculated` of the
+`DoesntMatch` arm; the connective is regenerated from the source (`Gen.Contract.createGuardIsOr`) -/
+def createOutputMismatch (idCalc srCalc cid sr : Bytes) : Bool :=
+  if Gen.Contract.createGuardIsOr then (cid != idCalc || sr != srCalc) else (cid != idCalc && sr != srCalc)
+
+/-- what the clause requires of an announced `(contract_id, state_root)` -/
+def createOutputOk (m : CreateMetadata) (cid sr : Bytes) : Bool :=
+  !createOutputMismatch m.contractId m.stateRoot cid sr
+
+/-- the `try_for_each` over the outputs: `contract_created` flag in, flag out -/
+def createOutputsLoop (idCalc srCalc : Bytes) : Bool → List Output → Except Err Bool
+  | created, [] => .ok created
+  | created, .contractCreated cid sr :: rest =>
+    if createOutputMismatch idCalc srCalc cid sr then .error .TransactionCreateOutputContractCreatedDoesntMatch
+    else if created then .error .TransactionCreateOutputContractCreatedMultiple
+    else createOutputsLoop idCalc srCalc true rest
+  | created, .other :: rest => createOutputsLoop idCalc srCalc created rest
+
+/-- the part of `check_unique_rules` about the created contract: `(state_root, contract_id)` from the cached
+metadata (recomputed when absent), the output loop, and the final `!contract_created` test -/
+def Create.checkOutputs (H : Bytes → Bytes) (c : Create) (outputs : List Output) : Except Err Unit :=
+  let calcd : Except Err (Bytes × Bytes) := match c.metadata with
+    | some m => .ok (m.stateRoot, m.contractId)
+    | none => match CreateMetadata.compute H c with
+      | .error e => .error e
+      | .ok m => .ok (m.stateRoot, m.contractId)
+  match calcd with
+  | .error e => .error e
+  | .ok (srCalc, idCalc) =>
+    match createOutputsLoop idCalc srCalc false outputs with
+    | .error e => .error e
+    | .ok created => if !created then .error .TransactionOutputDoesntContainContractCreated else .ok ()
+
+/-- `into_checked` as far as the identifiers are concerned: `precompute`, then the clause above -/
+def Create.intoChecked (H : Bytes → Bytes) (c : Create) (outputs : List Output) : Except Err Create :=
+  match c.precompute H with
+  | (_, .error e) => .error e
+  | (c', .ok _) =>
+    match c'.checkOutputs H outputs with
+    | .error e => .error e
+    | .ok _ => .ok c'
 
 /-- read a generated metadata field -/
 def CreateMetadata.get (m : CreateMetadata) : Gen.Contract.MetaField → Bytes
